@@ -159,16 +159,12 @@ func Cmp(ei, ej Object) int {
 	ti := ei.Type()
 	tj := ej.Type()
 	if areIntFloat(ti, tj) {
-		// We have float and integer, let's sort them together.
-		var v1, v2 float64
+		// We have float and integer, let's sort them together (exactly: converting the integer
+		// to float64 rounds beyond 2^53 and made <= non transitive).
 		if ti == INTEGER {
-			v1 = float64(ei.(Integer).Value)
-			v2 = ej.(Float).Value
-		} else {
-			v1 = ei.(Float).Value
-			v2 = float64(ej.(Integer).Value)
+			return cmpIntFloat(ei.(Integer).Value, ej.(Float).Value)
 		}
-		return cmp.Compare(v1, v2)
+		return -cmpIntFloat(ej.(Integer).Value, ei.(Float).Value)
 	}
 	if ti < tj {
 		return -1
@@ -246,6 +242,24 @@ func Cmp(ei, ej Object) int {
 		return cmp.Compare(ei.Inspect(), ej.Inspect())
 	}
 	return 1
+}
+
+// cmpIntFloat compares an int64 and a float64 by their exact values (-1, 0, 1 like cmp.Compare,
+// NaN sorting before every number as cmp.Compare does for floats).
+func cmpIntFloat(i int64, f float64) int {
+	switch {
+	case f != f: // NaN
+		return 1
+	case f >= 0x1p63: // above every int64 (includes +Inf)
+		return -1
+	case f < -0x1p63: // below every int64 (includes -Inf)
+		return 1
+	}
+	t := math.Trunc(f) // integral part, now exactly an int64
+	if c := cmp.Compare(i, int64(t)); c != 0 {
+		return c
+	}
+	return cmp.Compare(0, f-t) // same integral part: the (exact) fractional part decides
 }
 
 func CompareKeys(a, b keyValuePair) int {
